@@ -194,7 +194,13 @@ def run_case(case):
                 done_at = None
                 result = None
                 try:
-                    for gi, grp in enumerate(groups):
+                    rounds = [(gi, grp) for gi, grp in enumerate(groups)]
+                    if via != 'decoder' and mode == 'memory':
+                        # a second message through the same state machine (reassembly state must be reset)
+                        rounds = rounds + [(gi + len(groups), grp) for gi, grp in enumerate(groups)]
+                    for gi, grp in rounds:
+                        second = gi >= len(groups)
+                        gi = gi % len(groups)
                         wire = P.PDataTfPDU(list(grp)).encode()
                         pdu_in = P.PDataTfPDU.decode(wire)
                         last_idx = bounds[gi + 1] - 1
@@ -214,13 +220,14 @@ def run_case(case):
                             if nxt != sm.current_state:
                                 viol.append((sig + ':state', '%s returned state %r (%s)' % (via, nxt, where)))
                             got = len(prov.to_service_user.items)
-                            if got != (0 if expect_receiving else 1):
-                                viol.append((sig + ':delivery:' + via,
-                                             '%s delivered %d items to the user after PDU %d/%d, expected %d (%s)'
-                                             % (via, got, gi + 1, len(groups), 0 if expect_receiving else 1, where)))
+                            want = (0 if expect_receiving else 1) + (1 if second else 0)
+                            if got != want:
+                                viol.append((sig + ':delivery:' + via + (':second-message' if second else ''),
+                                             '%s delivered %d items to the user after PDU %d/%d of message %d, expected %d (%s)'
+                                             % (via, got, gi + 1, len(groups), 2 if second else 1, want, where)))
                                 break
                             if got:
-                                item = prov.to_service_user.items[0]
+                                item = prov.to_service_user.items[-1]
                                 if not (isinstance(item, tuple) and len(item) == 2):
                                     viol.append((sig + ':delivery-shape', '%s delivered %r' % (via, item)))
                                     break
